@@ -49,7 +49,7 @@ func (m Mutation) MarshalJSON() ([]byte, error) {
 // UnmarshalJSON converts a 3 element JSON array to a Mutation
 func (m *Mutation) UnmarshalJSON(b []byte) error {
 	var v []interface{}
-	err := json.Unmarshal(b, &v)
+	err := unmarshalExact(b, &v)
 	if err != nil {
 		return err
 	}
